@@ -793,11 +793,11 @@ def process(chk, cases, scratch, with_model=True):
             if case["kind"] in ("workload", "workers") and case["ext"].lower() not in ("json", "yaml", "yml"):
                 # the model starts after the extension check
                 if real.get("err") != "ValueError":
-                    dis.append((case, f"unsupported extension: real {real}"))
+                    dis.append((case, f"unsupported extension: real {real}", {"err": "ValueError"}))
                 continue
             d = compare(case, real, rep, chk)
             if d:
-                dis.append((case, d))
+                dis.append((case, d, rep))
             else:
                 chk.traces_validated += 1
     return dis
@@ -834,7 +834,8 @@ def run(chk: common.Check):
             dis = process(chk, cases, scratch, with_model=True)
         else:
             process(chk, cases, scratch, with_model=False)
-        chk.extra["disagreements"] = [{"case": summarize(c), "what": t} for c, t in dis[:10]]
+        chk.extra["disagreements"] = [{"case": summarize(c), "what": t} for c, t, _ in dis[:10]]
+        chk.extra["disagreements_total"] = len(dis)
         chk.extra["known_note_D12"] = (
             "ReleasePolicy builds np.random.default_rng() without a seed (WorkloadLoader never passes one): "
             f"{chk.dist.get('unseeded_default_rng_calls', 0)} unseeded constructions observed in this run although --random_seed was given"
@@ -843,13 +844,24 @@ def run(chk: common.Check):
             def search():
                 r = common.Rng(chk.seed, "c19/search")
                 extra = []
-                for c, _ in dis[:20]:
+                for c, _, _ in dis[:20]:
                     extra += shrink_variants(c)
                 for kind in ("workload", "policy", "workers", "fuzz"):
                     extra += [gen_case(kind, r, i) for i in range(sizes["search"])]
+                before = len(chk.violations)
                 process(chk, extra, scratch, with_model=False)
+                if len(chk.violations) == before:
+                    # no input on which the real code fails the property itself: report the
+                    # model/code disagreements with a replay that re-runs the real code
+                    # against the recorded model answer
+                    for c, t, rep in dis[:3]:
+                        chk.violation(
+                            "correspondence-broken: " + t.split(":")[0][:80],
+                            {"case": c, "model": rep, "what": t, "broken": broken},
+                            found_input=False,
+                        )
 
-            common.broken_obligation(chk, broken + [f"correspondence: {t}" for _, t in dis[:5]], search)
+            common.broken_obligation(chk, broken + [f"correspondence: {t}" for _, t, _ in dis[:5]], search)
     finally:
         shutil.rmtree(scratch, ignore_errors=True)
     chk.rule = (
@@ -871,6 +883,10 @@ def run(chk: common.Check):
 
 def replay(path) -> int:
     data = json.loads(Path(path).read_text())
+    if "case" not in data:
+        print("replay holds no input (broken proof obligation): " + "; ".join(data.get("broken", [])))
+        print("re-run ./check C19 to see whether the obligation is still broken")
+        return 1
     case = data["case"]
     scratch = Path(tempfile.mkdtemp(prefix="c19_replay_"))
     try:
@@ -878,6 +894,17 @@ def replay(path) -> int:
         real, viol = run_real(case, scratch)
     finally:
         shutil.rmtree(scratch, ignore_errors=True)
+    if "model" in data:
+        # correspondence replay: the real code against the recorded answer of the model
+        chk = common.Check("C19", "quick", TECHNIQUE)
+        d = compare(case, real, data["model"], chk)
+        for s_, dd in viol:
+            print(f"oracle: {s_} [{dd}]")
+        if d:
+            print(f"REPRODUCED property=C19 correspondence: real code differs from the model's recorded answer: {d}")
+            return 1
+        print("not reproduced: the real code agrees with the model's recorded answer on this input")
+        return 0
     want = data.get("signature")
     hits = [s for s, _ in viol if want is None or s == want]
     for s, d in viol:
